@@ -16,7 +16,8 @@
    is not the negative zero. *)
 From Coq Require Import ZArith Bool List.
 From Verif Require Import Base.C06_JsNum Model.C06_Prelude64 Model.C06_Spec Gen.C06_Tables Model.C06_Templates
-  Proofs.C06_Arith Proofs.C06_Fix Proofs.C06_Tie Proofs.C06_AddMul32 Proofs.C06_Div32 Proofs.C06_Bits32 Proofs.C06_Shift32 Proofs.C06_Ops64 Proofs.C06_Mul64 Proofs.C06_Bits64 Proofs.C06_Status.
+  Proofs.C06_Arith Proofs.C06_Fix Proofs.C06_Tie Proofs.C06_AddMul32 Proofs.C06_Div32 Proofs.C06_Bits32 Proofs.C06_Shift32 Proofs.C06_Ops64 Proofs.C06_Mul64 Proofs.C06_Bits64 Proofs.C06_Status
+  Model.C06_P4_Conv Proofs.C06_P4_Shift64 Proofs.C06_P4_Div64a Proofs.C06_P4_Div64b Proofs.C06_P4_Int64 Proofs.C06_P4_Conv.
 Import ListNotations.
 Local Open Scope Z_scope.
 
@@ -253,6 +254,125 @@ Theorem C06_conv_64to64_correct : forall V k1 k2 x, is64 k1 = true -> is64 k2 = 
 Proof. exact conv_oo_correct. Qed.
 Print Assumptions C06_conv_64to64_correct.
 
+(* ---- Phase 4: $div64 (both loops, by invariant), the 64-bit shifts for every count, and with them EVERY
+        binary operator of int64/uint64: C06_int64_full_statement is closed for every variant V. ------------------
+   A pair of 32-bit words (h, l) denotes val2 h l = h * 2^32 + l; qrep h l Q: the quotient register (a signed high
+   word and an unsigned low word) represents Q modulo 2^64. *)
+(* one `y <<= 1` of the first loop and one `y >>>= 1` of the second are exact on pairs *)
+Theorem C06_div64_shl1_exact : forall yh yl, 0 <= yh < two31 -> 0 <= yl < two32 ->
+  let yh' := to_uint32 (or32 (shl32 yh 1) (ushr32 yl 31)) in
+  let yl' := to_uint32 (shl32 yl 1) in
+  val2 yh' yl' = 2 * val2 yh yl /\ 0 <= yh' < two32 /\ 0 <= yl' < two32.
+Proof. exact shl1_pair. Qed.
+Print Assumptions C06_div64_shl1_exact.
+Theorem C06_div64_shr1_exact : forall yh yl, 0 <= yh < two32 -> 0 <= yl < two32 ->
+  let yh' := ushr32 yh 1 in
+  let yl' := to_uint32 (or32 (ushr32 yl 1) (shl32 yh 31)) in
+  val2 yh' yl' = val2 yh yl / 2 /\ 0 <= yh' < two32 /\ 0 <= yl' < two32.
+Proof. exact shr1_pair. Qed.
+Print Assumptions C06_div64_shr1_exact.
+(* invariant of the normalisation loop `while (yHigh < 2^31 && x > y) { y <<= 1; n++ }`: y = y0 * 2^(n - n0); with fuel f
+   such that y0 * 2^f >= 2^63 (64 suffices for any y0 >= 1) the loop left through its condition and x < 2 * y *)
+Theorem C06_div64_norm_loop_invariant : forall f xh xl yh yl n,
+  0 <= xl < two32 -> 0 <= yh < two32 -> 0 <= yl < two32 ->
+  0 < val2 yh yl -> val2 xh xl < two64 -> two64 <= 2 * (val2 yh yl * 2 ^ Z.of_nat f) ->
+  exists j : nat,
+    snd (div_norm f xh xl yh yl n) = n + Z.of_nat j /\
+    let yh' := fst (fst (div_norm f xh xl yh yl n)) in
+    let yl' := snd (fst (div_norm f xh xl yh yl n)) in
+    val2 yh' yl' = val2 yh yl * 2 ^ Z.of_nat j /\ 0 <= yh' < two32 /\ 0 <= yl' < two32 /\
+    val2 xh xl < 2 * val2 yh' yl'.
+Proof. exact div_norm_spec. Qed.
+Print Assumptions C06_div64_norm_loop_invariant.
+(* one iteration of the quotient loop: x' = x - b*y, q' = 2q + b (b = [y <= x]), y' = y / 2; the `low === 4294967296` carry is dead *)
+Theorem C06_div64_step_invariant : forall s Q,
+  0 <= d_xl s < two32 -> 0 <= d_yh s < two32 -> 0 <= d_yl s < two32 -> qrep (d_high s) (d_low s) Q ->
+  let X := val2 (d_xh s) (d_xl s) in
+  let Y := val2 (d_yh s) (d_yl s) in
+  let b := if Y <=? X then 1 else 0 in
+  let s' := div_step s in
+  val2 (d_xh s') (d_xl s') = X - b * Y /\ 0 <= d_xl s' < two32 /\
+  val2 (d_yh s') (d_yl s') = Y / 2 /\ 0 <= d_yh s' < two32 /\ 0 <= d_yl s' < two32 /\
+  qrep (d_high s') (d_low s') (2 * Q + b).
+Proof. exact div_step_spec. Qed.
+Print Assumptions C06_div64_step_invariant.
+(* the quotient loop: j+1 iterations from y = D * 2^j, x < 2y end with x = x0 mod D and q = q0 * 2^(j+1) + x0 / D *)
+Theorem C06_div64_quot_loop_invariant : forall (j : nat) s D Q,
+  0 < D ->
+  0 <= d_xl s < two32 -> 0 <= d_yh s < two32 -> 0 <= d_yl s < two32 -> qrep (d_high s) (d_low s) Q ->
+  val2 (d_yh s) (d_yl s) = D * 2 ^ Z.of_nat j ->
+  0 <= val2 (d_xh s) (d_xl s) < 2 * (D * 2 ^ Z.of_nat j) ->
+  let s' := div_iter (S j) s in
+  val2 (d_xh s') (d_xl s') = val2 (d_xh s) (d_xl s) mod D /\ 0 <= d_xl s' < two32 /\
+  qrep (d_high s') (d_low s') (Q * 2 ^ (Z.of_nat j + 1) + val2 (d_xh s) (d_xl s) / D).
+Proof. exact div_iter_spec. Qed.
+Print Assumptions C06_div64_quot_loop_invariant.
+(* the helper: truncated quotient / remainder with the sign of the dividend, wrapped (MinInt64 / -1 = MinInt64), all operands *)
+Theorem C06_div64_helper_correct : forall tr k x y rem, is64 k = true -> in_range k x -> in_range k y -> y <> 0 ->
+  div64 tr (enc64 k x) (enc64 k y) rem = Ret (enc64 k (wrap k (if rem then Z.rem x y else Z.quot x y))).
+Proof. exact div64_value. Qed.
+Print Assumptions C06_div64_helper_correct.
+Theorem C06_div64_zero_throws : forall tr k x rem, div64 tr (enc64 k x) (enc64 k 0) rem = Throw DivideByZero.
+Proof. exact div64_throw. Qed.
+Print Assumptions C06_div64_zero_throws.
+Theorem C06_quo64_correct : forall V k x y, is64 k = true -> in_range k x -> in_range k y ->
+  bin64 V k Quo (enc64 k x) (enc64 k y) =
+  match go_bin k Quo x y with GVal v => Ret (enc64 k v) | GPanicDivide => Throw DivideByZero end.
+Proof. exact quo64_correct. Qed.
+Print Assumptions C06_quo64_correct.
+Theorem C06_rem64_correct : forall V k x y, is64 k = true -> in_range k x -> in_range k y ->
+  bin64 V k Rem (enc64 k x) (enc64 k y) =
+  match go_bin k Rem x y with GVal v => Ret (enc64 k v) | GPanicDivide => Throw DivideByZero end.
+Proof. exact rem64_correct. Qed.
+Print Assumptions C06_rem64_correct.
+Theorem C06_div64_minint : forall V,
+  bin64 V Int64 Quo (enc64 Int64 (-9223372036854775808)) (enc64 Int64 (-1)) = Ret (enc64 Int64 (-9223372036854775808)) /\
+  bin64 V Int64 Rem (enc64 Int64 (-9223372036854775808)) (enc64 Int64 (-1)) = Ret (enc64 Int64 0).
+Proof. exact quo64_minint. Qed.
+Print Assumptions C06_div64_minint.
+(* EVERY binary operator of int64/uint64, every variant, all in-range operands: the full statement, no exclusions *)
+Theorem C06_int64_binop_correct : forall V, C06_int64_full_statement V.
+Proof. exact bin64_full. Qed.
+Print Assumptions C06_int64_binop_correct.
+(* $shiftLeft64 / $shiftRightInt64 / $shiftRightUint64 for EVERY count n >= 0 (0, < 32, 32, 32..63, >= 64; unbounded) *)
+Theorem C06_shl64_var_correct : forall V k x n, is64 k = true -> in_range k x -> 0 <= n ->
+  sh64 V k Shl (enc64 k x) (Fin n) = Ret (enc64 k (go_shift k Shl x n)).
+Proof. exact shl64_correct. Qed.
+Print Assumptions C06_shl64_var_correct.
+Theorem C06_shr64_var_correct : forall V k x n, is64 k = true -> in_range k x -> 0 <= n ->
+  sh64 V k Shr (enc64 k x) (Fin n) = Ret (enc64 k (go_shift k Shr x n)).
+Proof. exact shr64_correct. Qed.
+Print Assumptions C06_shr64_var_correct.
+(* constant counts are emitted as the same helper call with the literal count (C06_emitted_shc64), so: *)
+Theorem C06_shift64_const_correct : forall V k s c x, is64 k = true -> in_range k x -> 0 <= c ->
+  sh64 V k s (enc64 k x) (Fin c) = Ret (enc64 k (go_shift k s x c)).
+Proof. exact sh64_const_correct. Qed.
+Print Assumptions C06_shift64_const_correct.
+Theorem C06_shift64_result_in_range : forall k s x n, is64 k = true -> in_range k x -> 0 <= n -> in_range k (go_shift k s x n).
+Proof. exact go_shift64_in_range. Qed.
+Print Assumptions C06_shift64_result_in_range.
+
+(* ---- Phase 4: float64 <-> 64-bit kinds.  The emitted templates (regenerated each run) are the models: ---- *)
+Theorem C06_emitted_conv_float_to64 : forall k2, is64 k2 = true -> g_conv_fo k2 = Some (conv_fo current k2).
+Proof. exact tie_conv_fo. Qed.
+Print Assumptions C06_emitted_conv_float_to64.
+Theorem C06_emitted_conv_64_to_float : forall k1, is64 k1 = true -> g_conv_of k1 = Some conv_of.
+Proof. exact tie_conv_of. Qed.
+Print Assumptions C06_emitted_conv_64_to_float.
+(* float64 n/d -> int64/uint64 truncates toward zero for every value whose truncation is in range, when the constructor uses
+   Math.trunc (v_ctor, probed per run); with Math.ceil (the tree before the repair) the statement is false: int64(4294967295.5) *)
+Theorem C06_conv_float_to64_correct : forall V, v_ctor V = true -> conv_fo_full_statement V.
+Proof. exact conv_fo_correct. Qed.
+Print Assumptions C06_conv_float_to64_correct.
+Theorem C06_conv_float_to64_ceil_refuted : forall V, v_ctor V = false -> ~ conv_fo_full_statement V.
+Proof. exact conv_fo_ceil_refuted. Qed.
+Print Assumptions C06_conv_float_to64_ceil_refuted.
+(* int64/uint64 -> float64 ($flatten64) is exact for |x| <= 2^53 (above, the result is a rounded double: outside the model, compared only) *)
+Theorem C06_conv_64_to_float_exact : forall k x, is64 k = true -> in_range k x -> - two53 <= x <= two53 ->
+  conv_of (enc64 k x) = Ret (Fin x).
+Proof. exact conv_of_exact. Qed.
+Print Assumptions C06_conv_64_to_float_exact.
+
 (* Non-vacuity: concrete in-range operands through the emitted (regenerated) templates. *)
 Example C06_nonvacuous :
   in_range Int8 (-128) /\ in_range Int8 127 /\
@@ -260,4 +380,15 @@ Example C06_nonvacuous :
   (match g_bin32 Uint32 Mul with Some f => f (Fin 4294967295) (Fin 4294967295) | None => RUnk end) = Ret (Fin 1) /\
   (match g_bin32 Int16 Quo with Some f => f (Fin (-7)) (Fin 2) | None => RUnk end) = Ret (Fin (-3)) /\
   (match g_bin32 Int Rem with Some f => f (Fin (-7)) (Fin 0) | None => RUnk end) = Throw DivideByZero.
+Proof. vm_compute. repeat split; intro; discriminate. Qed.
+Example C06_nonvacuous_p4 :
+  in_range Int64 (-9223372036854775808) /\ in_range Uint64 18446744073709551615 /\
+  (match g_bin64 Int64 Quo with Some f => f (enc64 Int64 (-7)) (enc64 Int64 2) | None => RUnk end) = Ret (enc64 Int64 (-3)) /\
+  (match g_bin64 Uint64 Rem with Some f => f (enc64 Uint64 18446744073709551615) (enc64 Uint64 10) | None => RUnk end) = Ret (enc64 Uint64 5) /\
+  (match g_bin64 Int64 Rem with Some f => f (enc64 Int64 5) (enc64 Int64 0) | None => RUnk end) = Throw DivideByZero /\
+  (match g_shv64 Int64 Shr with Some f => f (enc64 Int64 (-9223372036854775808)) (Fin 63) | None => RUnk end) = Ret (enc64 Int64 (-1)) /\
+  (match g_shv64 Uint64 Shl with Some f => f (enc64 Uint64 3) (Fin 63) | None => RUnk end) = Ret (enc64 Uint64 9223372036854775808) /\
+  (match g_conv_fo Int64 with Some f => f (jreal (-8589934591) 2) | None => RUnk end) = Ret (enc64 Int64 (-4294967295)) /\
+  (match g_conv_of Uint64 with Some f => f (enc64 Uint64 9007199254740992) | None => RUnk end) = Ret (Fin 9007199254740992) /\
+  v_ctor current = true.
 Proof. vm_compute. repeat split; intro; discriminate. Qed.
